@@ -3587,6 +3587,7 @@ size_t ZSTDv05_decompressContinue(ZSTDv05_DCtx* dctx, void* dst, size_t maxDstSi
             {
             case bt_compressed:
                 rSize = ZSTDv05_decompressBlock_internal(dctx, dst, maxDstSize, src, srcSize);
+                if (!ZSTDv05_isError(rSize) && rSize > BLOCKSIZE) return ERROR(corruption_detected);   /* as the single-call decoder */
                 break;
             case bt_raw :
                 rSize = ZSTDv05_copyRawBlock(dst, maxDstSize, src, srcSize);
